@@ -67,11 +67,18 @@ def yearOfOrd (n : Int) : Nat → Int → Int
 
 /-- Python `date.fromordinal` (search formulation; tied to the closed form by correspondence) -/
 def maxOrd : Int := 3652059        -- date.max.toordinal()
-def Date.ofOrd (n : Int) : Date :=
-  if n < 1 then ⟨0, 12, 31⟩ else if n > maxOrd then ⟨10000, 1, 1⟩ else   -- outside `datetime`'s range
+/-- year/month search (fast path) -/
+def Date.ofOrdFast (n : Int) : Date :=
   let y0 := n / 366 + 1
   let y := yearOfOrd n ((n.natAbs / 100000) + 8) y0
   monthOfYearDay y (n - dby y) 12 1
+
+/-- Python `date.fromordinal`.  The fast search result is *checked* (`valid ∧ ord = n`); should the check ever
+    fail the slow day-stepping definition is used, so the specification `ofOrd_spec` holds unconditionally. -/
+def Date.ofOrd (n : Int) : Date :=
+  if n < 1 then ⟨0, 12, 31⟩ else if n > maxOrd then ⟨10000, 1, 1⟩ else   -- outside `datetime`'s range
+  let c := Date.ofOrdFast n
+  if c.valid && c.ord == n then c else (⟨1, 1, 1⟩ : Date).addDaysN (n - 1).toNat
 
 def Date.addDays (x : Date) (n : Int) : Date := Date.ofOrd (x.ord + n)
 
